@@ -93,6 +93,12 @@ impl Bind {
         self
     }
 
+    /// the bindings of the generics in `own` only
+    pub(crate) fn restricted_to(mut self, own: &[Identifier]) -> Self {
+        self.bound_generics.retain(|k, _| own.contains(k));
+        self
+    }
+
     /// whether no generic is bound to anything but itself or the bottom type
     pub(crate) fn is_trivial(&self) -> bool {
         self.is_trivial_except(&[])
@@ -278,11 +284,13 @@ impl XFuncSpec {
         for (arg, param) in args.iter().zip(self.params.iter()) {
             ret = ret.mix(&param.type_.bind_in_assignment(arg)?)?;
         }
-        // generic parameters of an enclosing function are not this function's to instantiate
-        if !ret.is_trivial_except(self.generic_params.as_deref().unwrap_or(&[])) {
+        // generic parameters of an enclosing function are not this function's to instantiate (and a bottom-typed
+        // argument in their place must not rewrite them in the return type)
+        let own = self.generic_params.as_deref().unwrap_or(&[]);
+        if !ret.is_trivial_except(own) {
             return None;
         }
-        Some(ret)
+        Some(ret.restricted_to(own))
     }
 
     pub(crate) fn rtype(&self, bind: &Bind) -> Arc<XType> {
